@@ -53,18 +53,35 @@ CTX = Ctx()
 
 
 def lift1(f, a):
-    return Vec((CTX.per_class(i, f, x) for i, x in enumerate(a.v)), fresh=a.fresh, aligned=a.aligned) if isinstance(a, Vec) else f(a)
+    if not isinstance(a, Vec):
+        return f(a)
+    r = Vec((CTX.per_class(i, f, x) for i, x in enumerate(a.v)), fresh=a.fresh, aligned=a.aligned)
+    r.exact = a.exact
+    return r
+
+
+def label_hazard(a, b, what):
+    """pandas aligns two Series by label: one carrying a table's possibly non-0..n-1 index, the other a fresh 0..n-1 index
+    -> values meet the wrong rows (or NaN)"""
+    if isinstance(a, Vec) and isinstance(b, Vec):
+        for x, y in ((a, b), (b, a)):
+            if isinstance(x.aligned, str) and y.fresh and not y.aligned:
+                raise Raised("IndexMisalignment", f"{what} of a Series on the table's own index (index kind: {x.aligned}) with a Series on a fresh 0..n-1 index: "
+                             "pandas aligns them by label, so rows meet other rows' values unless the table's index happens to be 0..n-1")
 
 
 def lift2(f, a, b):
+    label_hazard(a, b, "elementwise operation")
     n = len(a.v) if isinstance(a, Vec) else len(b.v)
     av = a.v if isinstance(a, Vec) else [a] * n
     bv = b.v if isinstance(b, Vec) else [b] * n
     if len(av) != len(bv):
         raise Undecided("vector length mismatch")
-    return Vec((CTX.per_class(i, f, x, y) for i, (x, y) in enumerate(zip(av, bv))),
-               fresh=(isinstance(a, Vec) and a.fresh) or (isinstance(b, Vec) and b.fresh),
-               aligned=(isinstance(a, Vec) and a.aligned) or (isinstance(b, Vec) and b.aligned))
+    r = Vec((CTX.per_class(i, f, x, y) for i, (x, y) in enumerate(zip(av, bv))),
+            fresh=(isinstance(a, Vec) and a.fresh) or (isinstance(b, Vec) and b.fresh),
+            aligned=(isinstance(a, Vec) and a.aligned) or (isinstance(b, Vec) and b.aligned))
+    r.exact = all(x.exact for x in (a, b) if isinstance(x, Vec))
+    return r
 
 
 def bcast(v, n):
